@@ -703,7 +703,7 @@ def _split_params(text):
     return [p.strip() for p in parts if p.strip()]
 
 
-def _helper_text(file, desc, item, fn_name, impl_hdr):
+def _helper_text(file, desc, item, fn_name, impl_hdr, known=()):
     applied = set()
     txt = strip_comments(item)
     txt = strip_attrs(txt, applied)
@@ -731,14 +731,18 @@ def _helper_text(file, desc, item, fn_name, impl_hdr):
     spec_params = re.sub(r"\bmut\s+", "", params)
     call = ("self.%s__spec(%s)" % (fn_name, ", ".join(n for n in names if n != "self"))) if "self" in names \
         else ("Self::%s__spec(%s)" % (fn_name, ", ".join(names)))
+    # inside the spec twin, calls to OTHER auto-extracted helpers go to their spec twins
+    spec_body = body_txt
+    for kn in known:
+        spec_body = re.sub(r"(\.|::)%s\(" % re.escape(kn), r"\1%s__spec(" % kn, spec_body)
     return ("\n// auto-extracted helper (not listed in the unit): %s\n%s {\n"
             "    spec fn %s__spec%s(%s) -> %s %s\n\n"
             "    fn %s%s(%s) -> (r: %s)\n        ensures r == %s,\n    %s\n}\n") % (
-        desc, impl_hdr, fn_name, generics, spec_params, ret_ty, body_txt,
+        desc, impl_hdr, fn_name, generics, spec_params, ret_ty, spec_body,
         fn_name, generics, params, ret_ty, call, body_txt)
 
 
-def auto_helper(file, type_name, fn_name):
+def auto_helper(file, type_name, fn_name, known=()):
     """A helper function that the extracted code calls but the unit does not list (typically
     introduced by a refactoring): copied verbatim (R1-R5) into an `impl` block together with a
     `spec fn <name>__spec` holding the SAME body text and `ensures r == <name>__spec(..)`, so that a
@@ -755,11 +759,11 @@ def auto_helper(file, type_name, fn_name):
             if k2 == "fn" and R.header_name("fn", h2) == fn_name:
                 impl_hdr = src[start:body].strip()
                 impl_hdr = re.sub(r"^pub(\([^)]*\))?\s+", "", impl_hdr)
-                return _helper_text(file, "%s >> impl %s >> fn %s" % (file, type_name, fn_name), src[s2:e2], fn_name, impl_hdr)
+                return _helper_text(file, "%s >> impl %s >> fn %s" % (file, type_name, fn_name), src[s2:e2], fn_name, impl_hdr, known)
     return None
 
 
-def auto_helper_near(label, fn_name, gen_text, gen_line):
+def auto_helper_near(label, fn_name, gen_text, gen_line, known=()):
     """Same, located by POSITION: the helper is searched in the source `impl` block (then module)
     that the calling extracted function came from, and emitted under the `impl` header that
     encloses the caller in the generated file (units re-home impls of type aliases)."""
@@ -830,7 +834,7 @@ def auto_helper_near(label, fn_name, gen_text, gen_line):
         applied = set()
         txt = strip_vis(strip_attrs(strip_comments(const_item), applied), applied)
         return ("\n// auto-extracted constant (not listed in the unit): %s\n%s {\n    %s\n}\n" % (where, hdr, txt.strip())), where
-    return _helper_text(file, where, item, fn_name, hdr), where
+    return _helper_text(file, where, item, fn_name, hdr, known), where
 
 
 RE_ERR = re.compile(r"^(error|warning)(?:\[\w+\])?: (.*)$")
@@ -902,12 +906,14 @@ def run_unit(unit, timeout=600, with_canary=True):
     # helper functions introduced next to the extracted code (refactorings): pull them in
     # automatically, transparent via an auto-generated spec twin (see auto_helper)
     helpers_added = []
-    for _round in range(3):
+    done_pairs = set()
+    helper_reqs = []          # (fn_name, type name, label of the calling block or None, generated line)
+    base_text = text
+    for _round in range(4):
         missing = set(RE_MISSING.findall(err or ""))
         if rc in (0, None) or not missing:
             break
         files = sorted(set(m_["item"].split(" >> ")[0] for m_ in manifest))
-        extra = ""
         # where each missing name was reported (first location per name)
         where_line = {}
         cur_name = None
@@ -920,29 +926,43 @@ def run_unit(unit, timeout=600, with_canary=True):
             if ml_ and cur_name and cur_name not in where_line:
                 where_line[cur_name] = int(ml_.group(2))
                 cur_name = None
+        new_req = False
         for fn_name, ty in sorted(missing):
-            if any(h_.endswith("fn " + fn_name) or h_.endswith("const " + fn_name) for h_ in helpers_added):
-                continue
             ty = ty.split("::")[-1]
-            h = None
             gl = where_line.get(fn_name)
+            fn_name = re.sub(r"(__spec)+$", "", fn_name)     # a spec twin asked for another helper's twin
+            if (ty, fn_name) in done_pairs:
+                continue
+            done_pairs.add((ty, fn_name))
+            label = None
             if gl is not None:
                 for a_, b_, label_ in spans:
                     if a_ <= gl <= b_:
-                        try:
-                            h, where_ = auto_helper_near(label_, fn_name, text, gl)
-                        except Exception:
-                            h = None
-                        if h:
-                            extra += h
-                            helpers_added.append(where_)
+                        label = label_
                         break
-            if h:
-                continue
-            for f in files:
-                h = None
+            helper_reqs.append((fn_name, ty, label, gl))
+            new_req = True
+        if not new_req:
+            break
+        # (re)build ALL helpers with the full set of helper names known so far, so that each spec
+        # twin calls the spec twins of the other helpers
+        known = tuple(sorted({r_[0] for r_ in helper_reqs}))
+        extra = ""
+        helpers_added = []
+        for fn_name, ty, label, gl in helper_reqs:
+            h = None
+            if label is not None:
                 try:
-                    h = auto_helper(f, ty, fn_name)
+                    h, where_ = auto_helper_near(label, fn_name, base_text, gl, known)
+                except Exception:
+                    h = None
+                if h:
+                    extra += h
+                    helpers_added.append(where_)
+                    continue
+            for f in files:
+                try:
+                    h = auto_helper(f, ty, fn_name, known)
                 except Exception:
                     h = None
                 if h:
@@ -952,9 +972,9 @@ def run_unit(unit, timeout=600, with_canary=True):
         if not extra:
             break
         marker = "} // verus!"
-        if marker not in text:
+        if marker not in base_text:
             break
-        text = text.replace(marker, extra + "\n" + marker, 1)
+        text = base_text.replace(marker, extra + "\n" + marker, 1)
         with open(path, "w") as f:
             f.write(text)
         rc, out, err, wall2 = _run_verus(path, timeout)
